@@ -21,6 +21,36 @@
 #include "gmp++/gmp++.h"
 #include "givinteger.h"
 #include "givintprime.h"
+
+// ---------------------------------------------------------------------------------------------------------------
+// A scripted random source.  IntFactorDom<MyRandIter> and IntPrimeDom::Miller<MyRandIter> obtain every random
+// number through the member template IntegerDom::random(MyRandIter&, Rep&, const Rep&) (which ignores the iterator and
+// asks GMP's global state).  For the iterator type ScriptRand that member template is specialised here, BEFORE
+// givintfactor.h is seen: the numbers come from a script given on the input line, reduced modulo the bound.  With
+// this the whole random walk of Pollard's rho (and the witness of Miller) is a function of the input line, the model
+// (coq/C12/ModelScript.v) computes the same walk, and the check can choose scripts that drive the rare paths.
+// A draw beyond the end of the script falls back to GMP's generator and is counted (printed as "under").
+struct ScriptRand {
+    typedef ScriptRand random_generator; typedef uint64_t random_t; typedef uint64_t seed_t;
+    ScriptRand(uint64_t = 0) {}
+    uint64_t seed() const { return 1; }
+    uint64_t max_rand() const { return 2147483647; }
+    uint64_t operator()() const { return 12345; }
+};
+static std::vector<Givaro::Integer> SCRIPT; static size_t SPOS = 0, SUNDER = 0;
+static Givaro::Integer& script_draw(Givaro::Integer& r, const Givaro::Integer& b, bool nonzero) {
+    for (;;) {
+        if (SPOS < SCRIPT.size()) { r = SCRIPT[SPOS++]; r %= b; if (r < 0) r += b; }
+        else { ++SUNDER; return nonzero ? Givaro::Integer::nonzerorandom(r, b) : Givaro::Integer::random(r, b); }
+        if (!nonzero || r != 0) return r;
+    }
+}
+namespace Givaro {
+    template<> Integer& IntegerDom::random<const ScriptRand>(const ScriptRand&, Integer& r, const Integer& b) const { return script_draw(r, b, false); }
+    template<> Integer& IntegerDom::random<ScriptRand>(ScriptRand&, Integer& r, const Integer& b) const { return script_draw(r, b, false); }
+    template<> Integer& IntegerDom::nonzerorandom<const ScriptRand>(const ScriptRand&, Integer& r, const Integer& b) const { return script_draw(r, b, true); }
+    template<> Integer& IntegerDom::nonzerorandom<ScriptRand>(ScriptRand&, Integer& r, const Integer& b) const { return script_draw(r, b, true); }
+}
 #include "givintfactor.h"
 #include "givprimes16.h"
 
@@ -57,6 +87,8 @@ int main(int argc, char** argv) {
     GivRandom gen(987654321);
     IntPrimeDom IP;
     IntFactorDom<GivRandom> FD(gen);
+    ScriptRand sgen;
+    IntFactorDom<ScriptRand> SD(sgen);
     {   // handlers run on an alternate stack so that a stack overflow (runaway recursion) is reported as CRASH, too
         static char altstack[1 << 16];
         stack_t ss; ss.ss_sp = altstack; ss.ss_size = sizeof(altstack); ss.ss_flags = 0; sigaltstack(&ss, 0);
@@ -76,8 +108,16 @@ int main(int argc, char** argv) {
             if (sig == SIGALRM) std::cout << "HANG" << std::endl; else std::cout << "CRASH " << sig << std::endl;
             continue;
         }
-        arm(budget);
+        bool scripted = op.size() > 2 && op[0] == 's' && op[1] == '.';
+        bool inplace = op.size() > 3 && op.compare(op.size() - 3, 3, ".ip") == 0;
         Z r(GARBAGE), q(GARBAGE);
+        unsigned long thr = 0;
+        if (scripted) {          // s.<op> n thr y1 y2 ...
+            SCRIPT.clear(); SPOS = 0; SUNDER = 0;
+            thr = a.size() > 1 ? (unsigned long)(uint64_t)a[1] : 0;
+            for (size_t i = 2; i < a.size(); ++i) SCRIPT.push_back(a[i]);
+        }
+        arm(inplace && budget > 2.0 ? 2.0 : budget);   // the unguarded in-place forms do not return: a short budget is enough
         // ------------------------------------------------------------ primality
         if (op == "isprime") o << nz(IP.isprime(a[0]));
         else if (op == "isprime.r") o << nz(IP.isprime(a[0], (int)(int64_t)a[1]));
@@ -114,6 +154,19 @@ int main(int argc, char** argv) {
         else if (op == "pprev.alias") { r = a[0]; Protected::prevprime(r, r); o << r; }
         else if (op == "pnext") { Protected::nextprime(r, a[0]); o << r; }
         else if (op == "pnext.alias") { r = a[0]; Protected::nextprime(r, r); o << r; }
+        else if (op == "nextrange.alias" || op == "prevrange.alias" || op == "pprevrange.alias" || op == "pnextrange" || op == "pnextrange.alias") {
+            int64_t lo = (int64_t)a[0], hi = (int64_t)a[1];
+            for (int64_t n = lo; n < hi; ++n) {
+                Z p(n), x(GARBAGE);
+                if (op == "nextrange.alias") { x = p; IP.nextprime(x, x); }
+                else if (op == "prevrange.alias") { x = p; IP.prevprime(x, x); }
+                else if (op == "pprevrange.alias") { x = p; Protected::prevprime(x, x); }
+                else if (op == "pnextrange") Protected::nextprime(x, p);
+                else { x = p; Protected::nextprime(x, x); }
+                if (n > lo) o << " ";
+                o << x;
+            }
+        }
         else if (op == "nextrange" || op == "prevrange" || op == "nextrange.in" || op == "prevrange.in" || op == "pprevrange") {
             int64_t lo = (int64_t)a[0], hi = (int64_t)a[1];
             for (int64_t n = lo; n < hi; ++n) {
@@ -137,6 +190,22 @@ int main(int argc, char** argv) {
         else if (op == "pollard.loops") { FD.Pollard(gen, r, a[0], (unsigned long)(uint64_t)a[1]); o << r; }
         else if (op == "lenstra") { FD.Lenstra(gen, r, a[0]); o << r; }
         else if (op == "lenstra.b") { FD.Lenstra(gen, r, a[0], a[1], (unsigned long)(uint64_t)a[2]); o << r; }
+        // ------------------------------------------------------------ the same with the scripted random source
+        else if (op == "s.pollard") { SD.Pollard(sgen, r, a[0], thr); o << r; }
+        else if (op == "s.factor") { SD.factor(r, a[0], thr); o << r; }
+        else if (op == "s.iffactorprime") { SD.iffactorprime(r, a[0], thr); o << r; }
+        else if (op == "s.primefactor") { SD.primefactor(r, a[0]); o << r; }
+        else if (op == "s.pollard.ip") { r = a[0]; Z& x = SD.Pollard(sgen, r, r, thr); o << r << " " << (&x == &r); }
+        else if (op == "s.lenstra.ip") { r = a[0]; Z& x = SD.Lenstra(sgen, r, r); o << r << " " << (&x == &r); }
+        else if (op == "s.factor.ip") { r = a[0]; Z& x = SD.factor(r, r, thr); o << r << " " << (&x == &r); }
+        else if (op == "s.iffactorprime.ip") { r = a[0]; Z& x = SD.iffactorprime(r, r, thr); o << r << " " << (&x == &r); }
+        else if (op == "s.primefactor.ip") { r = a[0]; Z& x = SD.primefactor(r, r); o << r << " " << (&x == &r); }
+        else if (op == "s.set2") { std::vector<Z> Lf; std::vector<unsigned long> Lo; bool f = SD.set(Lf, Lo, a[0], thr); o << f; put_pairs(o, Lf, Lo); }
+        else if (op == "s.set2.list") { std::list<Z> Lf; std::list<unsigned long> Lo; bool f = SD.set(Lf, Lo, a[0], thr); o << f; put_pairs(o, Lf, Lo); }
+        else if (op == "s.set1") { std::vector<Z> Lf; SD.set(Lf, a[0]); put_list(o, Lf); }
+        else if (op == "s.write") { std::ostringstream w; SD.write(w, a[0]); o << "[" << nospace(w.str()) << "]"; }
+        else if (op == "s.divisors") { std::list<Z> L; L.push_back(Z(77)); SD.divisors(L, a[0]); put_list(o, L); }
+        else if (op == "s.miller") { ScriptRand g2; o << nz(IP.Miller(g2, a[0])); }
         // ------------------------------------------------------------ complete factorisation
         else if (op == "set2.vec") { std::vector<Z> Lf; std::vector<unsigned long> Lo; bool f = FD.set(Lf, Lo, a[0]); o << f; put_pairs(o, Lf, Lo); }
         else if (op == "set2.list") { std::list<Z> Lf; std::list<unsigned long> Lo; bool f = FD.set(Lf, Lo, a[0]); o << f; put_pairs(o, Lf, Lo); }
@@ -152,6 +221,11 @@ int main(int argc, char** argv) {
             for (size_t i = 0; i + 1 < a.size(); i += 2) { Lf.push_back(a[i]); Le.push_back((unsigned long)(uint64_t)a[i + 1]); }
             std::list<Z> L; L.push_back(Z(77)); std::list<Z>& x = FD.divisors(L, Lf, Le); put_list(o, x); o << " ; " << (&x == &L);
         }
+        else if (op == "divisors.lf.alias") {      // the destination is the list of primes itself
+            std::list<Z> L; std::list<unsigned long> Le;
+            for (size_t i = 0; i + 1 < a.size(); i += 2) { L.push_back(a[i]); Le.push_back((unsigned long)(uint64_t)a[i + 1]); }
+            SD.divisors(L, L, Le); put_list(o, L);
+        }
         else if (op == "divisors.lf.list") {
             std::list<Z> Lf; std::list<unsigned long> Le;
             for (size_t i = 0; i + 1 < a.size(); i += 2) { Lf.push_back(a[i]); Le.push_back((unsigned long)(uint64_t)a[i + 1]); }
@@ -164,6 +238,7 @@ int main(int argc, char** argv) {
         else if (op == "primes16") { size_t c = Primes16::count(); o << c; for (size_t i = 0; i < c; ++i) o << " " << Primes16::ith(i); }
         else o << "UNKNOWN-OP";
         arm(0);
+        if (scripted) o << " | " << SPOS << " " << SUNDER;
         std::cout << o.str() << "\n";
     }
     std::cout.flush();
